@@ -438,7 +438,7 @@ func lexPunctuation(l *lexer) stateFn {
 func lexString(l *lexer) stateFn {
 	open := l.next()
 	l.emit(tokenStringOpen)
-	closePos := strings.Index(l.input[l.pos:], open)
+	closePos := stringEnd(l.input[l.pos:], open)
 	if closePos < 0 {
 		return l.errorf("unclosed string")
 	}
@@ -485,6 +485,53 @@ func lexString(l *lexer) stateFn {
 	l.emit(tokenStringClose)
 
 	return lexExpression
+}
+
+// stringEnd returns the offset in s of the quote that closes a string opened
+// with the given quote, or -1. Inside a double-quoted string an interpolation
+// may hold strings of its own, whose quotes do not end the outer string.
+func stringEnd(s string, open string) int {
+	if open == `"` {
+		for i := 0; i < len(s); i++ {
+			if s[i] == '"' {
+				return i
+			}
+			if strings.HasPrefix(s[i:], delimOpenInterpolate) {
+				n := interpolationEnd(s[i+len(delimOpenInterpolate):])
+				if n < 0 {
+					break
+				}
+				i += len(delimOpenInterpolate) + n
+			}
+		}
+	}
+	return strings.Index(s, open)
+}
+
+// interpolationEnd returns the offset in s of the brace that closes an
+// interpolation whose opening delimiter has just been read, or -1.
+func interpolationEnd(s string) int {
+	depth := 0
+	for i := 0; i < len(s); i++ {
+		switch s[i] {
+		case '\'', '"':
+			n := stringEnd(s[i+1:], s[i:i+1])
+			if n < 0 {
+				return -1
+			}
+			i += 1 + n
+		case '(', '[', '{':
+			depth++
+		case ')', ']':
+			depth--
+		case '}':
+			if depth == 0 {
+				return i
+			}
+			depth--
+		}
+	}
+	return -1
 }
 
 func lexOpenParens(l *lexer) stateFn {
